@@ -1,40 +1,13 @@
 import DoitModel.Proofs.LoadDict
 import DoitModel.Proofs.LoadControl
-/-! where an internal exception (`Err.crash`) can come from: lifting the dict-level lemmas through the loader -/
+/-! loading never raises anything but InvalidTask / InvalidDodoFile: lifting the dict-level lemmas through the loader -/
 namespace DoitModel.Load
 
-theorem initSafe_false_of (d : TDict) (h : cleanBad (get d .clean) = true ∨ tupleExtend d = true) :
-    initSafe d = false := by
-  unfold initSafe
-  rcases h with h | h <;> simp [h]
-
-/-- dictionaries that agree on `clean`, `getargs`, `uptodate` are equally (un)safe -/
-theorem initSafe_congr (d d' : TDict) (h1 : get d' .clean = get d .clean) (h2 : get d' .getargs = get d .getargs)
-    (h3 : get d' .uptodate = get d .uptodate) : initSafe d' = initSafe d := by
-  unfold initSafe tupleExtend
-  rw [h1, h2, h3]
-
-theorem initSafe_named (d : TDict) (v : RawVal) :
-    initSafe (put (del d .basename) .name v) = initSafe d := by
-  apply initSafe_congr
-  · rw [get_put_ne _ _ _ _ (by decide), get_del_ne _ _ _ (by decide)]
-  · rw [get_put_ne _ _ _ _ (by decide), get_del_ne _ _ _ (by decide)]
-  · rw [get_put_ne _ _ _ _ (by decide), get_del_ne _ _ _ (by decide)]
-
-theorem initSafe_group (d : TDict) (v w : RawVal) :
-    initSafe (put (put (del d .basename) .name v) .actions w) = initSafe d := by
-  apply initSafe_congr
-  · rw [get_put_ne _ _ _ _ (by decide), get_put_ne _ _ _ _ (by decide), get_del_ne _ _ _ (by decide)]
-  · rw [get_put_ne _ _ _ _ (by decide), get_put_ne _ _ _ _ (by decide), get_del_ne _ _ _ (by decide)]
-  · rw [get_put_ne _ _ _ _ (by decide), get_put_ne _ _ _ _ (by decide), get_del_ne _ _ _ (by decide)]
-
-theorem fromReturn_crash (fn : Name) (d : TDict) (e : Exn) (h : fromReturn fn d = .error (.crash e)) :
-    initSafe d = false := by
-  unfold fromReturn at h
-  split at h
-  · simp at h
-  · rw [← initSafe_named d ((get d .basename).getD (.str fn))]
-    exact initSafe_false_of _ (dictToTask_crash _ e h)
+theorem fromReturn_no_crash (fn : Name) (d : TDict) (e : Exn) : fromReturn fn d ≠ .error (.crash e) := by
+  unfold fromReturn
+  split
+  · simp
+  · exact dictToTask_no_crash _ e
 
 theorem groupTask_no_crash (b : Name) (deps : List Name) (e : Exn) : groupTask b deps ≠ .error (.crash e) := by
   unfold groupTask
@@ -60,87 +33,95 @@ theorem afterSub_crash (tasks : Tasks) (base : RawVal) (full : Name) (sub : Task
     · rename_i hh; simpa using hh
     · simp at h
 
-theorem yieldSub_crash (tasks : Tasks) (d : TDict) (base nv : RawVal) (nf bf : Name) (e : Exn)
-    (h : yieldSub tasks (del d .basename) base nv nf bf = .error (.crash e)) :
-    initSafe d = false ∨ (base.hashable = false) := by
+theorem yieldSub_crash (tasks : Tasks) (d0 : TDict) (base nv : RawVal) (nf bf : Name) (e : Exn)
+    (h : yieldSub tasks d0 base nv nf bf = .error (.crash e)) : base.hashable = false := by
   unfold yieldSub at h
   split at h
   · simp at h
   · split at h
     · rename_i e' hd
       cases h
-      left
-      rw [← initSafe_named d]
-      exact initSafe_false_of _ (dictToTask_crash _ e hd)
-    · exact Or.inr (afterSub_crash _ _ _ _ e h)
+      exact absurd hd (dictToTask_no_crash _ e)
+    · exact afterSub_crash _ _ _ _ e h
 
-theorem yieldGroupAttrs_crash (tasks : Tasks) (d : TDict) (base : RawVal) (e : Exn)
-    (h : yieldGroupAttrs tasks (del d .basename) base = .error (.crash e)) : initSafe d = false := by
+theorem yieldGroupAttrs_no_crash (tasks : Tasks) (d0 : TDict) (base : RawVal) (e : Exn) :
+    yieldGroupAttrs tasks d0 base ≠ .error (.crash e) := by
+  intro h
   unfold yieldGroupAttrs at h
   split at h
   · rename_i e' hd
     cases h
-    rw [← initSafe_group d]
-    exact initSafe_false_of _ (dictToTask_crash _ e hd)
+    exact absurd hd (dictToTask_no_crash _ e)
   · simp at h
 
-theorem yieldPlain_crash (tasks : Tasks) (d : TDict) (bn : RawVal) (e : Exn)
-    (h : yieldPlain tasks (del d .basename) bn = .error (.crash e)) :
-    initSafe d = false ∨ (bn.truthy = true ∧ bn.hashable = false) := by
+theorem yieldPlain_crash (tasks : Tasks) (d0 : TDict) (bn : RawVal) (e : Exn)
+    (h : yieldPlain tasks d0 bn = .error (.crash e)) : bn.hashable = false := by
   unfold yieldPlain at h
   split at h
   · simp at h
-  · rename_i ht
-    split at h
-    · rename_i hh
-      right
-      exact ⟨by simpa using ht, by simpa using hh⟩
+  · split at h
+    · rename_i hh; simpa using hh
     · split at h
       · split at h
         · simp at h
         · split at h
           · rename_i e' hd
             cases h
-            left
-            rw [← initSafe_named d]
-            exact initSafe_false_of _ (dictToTask_crash _ e hd)
+            exact absurd hd (dictToTask_no_crash _ e)
           · simp at h
       · split at h
         · rename_i e' hd
           cases h
-          left
-          rw [← initSafe_named d]
-          exact initSafe_false_of _ (dictToTask_crash _ e hd)
+          exact absurd hd (dictToTask_no_crash _ e)
         · simp at h
 
-theorem yieldDict_crash (tasks : Tasks) (fn : Name) (d : TDict) (nf bf : Name) (e : Exn)
-    (h : yieldDict tasks fn d nf bf = .error (.crash e)) :
-    initSafe d = false ∨ basenameBad d = true := by
+/-- once `basename` has passed `check_attr` it is absent or a string -/
+theorem basenameOk_cases (d : TDict) (h : basenameOk d = true) : bnOf d = .none ∨ ∃ s, bnOf d = .str s := by
+  unfold basenameOk at h
+  unfold bnOf
+  cases hg : get d .basename with
+  | none => left; rfl
+  | some v =>
+    rw [hg] at h
+    have hv : validAttr .basename = some ([.str], []) := by decide
+    simp only [hv] at h
+    right
+    cases v <;> simp_all [checkAttr, RawVal.isInstance]
+
+theorem bnOf_hashable (d : TDict) (h : basenameOk d = true) : (bnOf d).hashable = true := by
+  rcases basenameOk_cases d h with h1 | ⟨s, h1⟩ <;> rw [h1] <;> rfl
+
+theorem baseOf_hashable (fn : Name) (d : TDict) (h : basenameOk d = true) : (baseOf fn d).hashable = true := by
+  unfold baseOf
+  split
+  · exact bnOf_hashable d h
+  · rfl
+
+theorem yieldDict_no_crash (tasks : Tasks) (fn : Name) (d : TDict) (nf bf : Name) (e : Exn) :
+    yieldDict tasks fn d nf bf ≠ .error (.crash e) := by
+  intro h
   unfold yieldDict at h
   split at h
-  · rename_i nv hnv
+  · simp at h
+  · rename_i hok
+    have hok' : basenameOk d = true := by simpa using hok
+    unfold yieldDictPinned at h
     split at h
-    · exact Or.inl (yieldGroupAttrs_crash _ _ _ e h)
-    · rcases yieldSub_crash tasks d _ nv nf bf e h with h1 | h1
-      · exact Or.inl h1
-      · right
-        unfold basenameBad
-        unfold baseOf at h1
-        by_cases ht : (bnOf d).truthy = true
-        · simp only [ht, if_true] at h1
-          simp [ht, h1]
-        · simp only [ht, Bool.false_eq_true, if_false] at h1
-          simp [RawVal.hashable] at h1
-  · rcases yieldPlain_crash tasks d _ e h with h1 | ⟨h1, h2⟩
-    · exact Or.inl h1
-    · right; simp [basenameBad, h1, h2]
+    · split at h
+      · exact yieldGroupAttrs_no_crash _ _ _ e h
+      · have := yieldSub_crash _ _ _ _ _ _ e h
+        rw [baseOf_hashable fn d hok'] at this
+        cases this
+    · have := yieldPlain_crash _ _ _ e h
+      rw [bnOf_hashable d hok'] at this
+      cases this
 
-theorem yieldAll_crash (fn : Name) (ys : List Yielded) (tasks : Tasks) (e : Exn)
-    (h : yieldAll fn tasks ys = .error (.crash e)) :
-    ∃ d ∈ yieldedDicts ys, initSafe d = false ∨ basenameBad d = true := by
+theorem yieldAll_no_crash (fn : Name) (ys : List Yielded) (tasks : Tasks) (e : Exn) :
+    yieldAll fn tasks ys ≠ .error (.crash e) := by
   induction ys generalizing tasks with
-  | nil => simp [yieldAll] at h
+  | nil => simp [yieldAll]
   | cons y rest ih =>
+    intro h
     unfold yieldAll at h
     cases hy : yieldOne fn tasks y with
     | error e' =>
@@ -148,16 +129,13 @@ theorem yieldAll_crash (fn : Name) (ys : List Yielded) (tasks : Tasks) (e : Exn)
       cases y with
       | other => simp [yieldOne] at hy
       | task t => simp [yieldOne] at hy
-      | dict d nf bf =>
-        exact ⟨d, by simp [yieldedDicts], yieldDict_crash tasks fn d nf bf e hy⟩
+      | dict d nf bf => exact yieldDict_no_crash tasks fn d nf bf e hy
     | ok tasks' =>
       rw [hy] at h; simp only at h
-      obtain ⟨d, hd, hbad⟩ := ih tasks' h
-      refine ⟨d, ?_, hbad⟩
-      cases y <;> simp [yieldedDicts, hd]
+      exact ih tasks' h
 
-theorem generate_crash (fn : Name) (r : Result) (e : Exn) (h : generate fn r = .error (.crash e)) :
-    resultSafe r = false := by
+theorem generate_no_crash (fn : Name) (r : Result) (e : Exn) : generate fn r ≠ .error (.crash e) := by
+  intro h
   cases r with
   | task t => simp [generate] at h
   | none => simp [generate] at h
@@ -166,41 +144,35 @@ theorem generate_crash (fn : Name) (r : Result) (e : Exn) (h : generate fn r = .
     simp only [generate] at h
     split at h
     · rename_i e' hd; cases h
-      simpa [resultSafe] using fromReturn_crash fn d e hd
+      exact fromReturn_no_crash fn d e hd
     · simp at h
   | gen items =>
     simp only [generate] at h
     split at h
     · rename_i e' hy; cases h
-      obtain ⟨d, hd, hbad⟩ := yieldAll_crash fn _ [] e hy
-      cases hS : resultSafe (.gen items) with
-      | false => rfl
-      | true =>
-        exfalso
-        have hall : ∀ x ∈ yieldedDicts (Gen.flattenList items), initSafe x = true ∧ basenameBad x = false := by
-          simpa [resultSafe] using hS
-        have := hall d hd
-        rcases hbad with hb | hb <;> simp [hb] at this
+      exact yieldAll_no_crash fn _ [] e hy
     · split at h
       · rename_i e' hg; cases h
         exact absurd hg (groupTask_no_crash _ _ _)
       · simp at h
     · simp at h
 
-theorem generateAll_crash (cs : List Creator) (e : Exn) (h : generateAll cs = .error (.crash e)) :
-    ∃ c ∈ cs, resultSafe c.result = false := by
+theorem generateAll_no_crash (cmds : List Name) (cs : List Creator) (e : Exn) :
+    generateAll cmds cs ≠ .error (.crash e) := by
   induction cs with
-  | nil => simp [generateAll] at h
+  | nil => simp [generateAll]
   | cons c rest ih =>
+    intro h
     unfold generateAll at h
     split at h
     · rename_i e' hg; cases h
-      exact ⟨c, by simp, generate_crash _ _ e hg⟩
+      exact generate_no_crash _ _ e hg
     · split at h
-      · rename_i e' hr; cases h
-        obtain ⟨c', hc', hbad⟩ := ih hr
-        exact ⟨c', by simp [hc'], hbad⟩
       · simp at h
+      · split at h
+        · rename_i e' hr; cases h
+          exact ih hr
+        · simp at h
 
 theorem mem_insertByLine (c x : Creator) (l : List Creator) : x ∈ insertByLine c l ↔ x = c ∨ x ∈ l := by
   induction l with
@@ -234,8 +206,8 @@ theorem control_no_crash (ts : List Task) (e : Exn) : control ts ≠ .error (.cr
     · simp
     · split <;> simp
 
-theorem load_crash (cmds : List Name) (cs : List Creator) (e : Exn) (h : load cmds cs = .crash e) :
-    Safe cs = false := by
+theorem load_no_crash (cmds : List Name) (cs : List Creator) (e : Exn) : load cmds cs ≠ .crash e := by
+  intro h
   unfold load at h
   cases hl : loadTasks cmds cs with
   | error e' =>
@@ -247,14 +219,7 @@ theorem load_crash (cmds : List Name) (cs : List Creator) (e : Exn) (h : load cm
       unfold loadTasks at hl
       split at hl
       · simp at hl
-      · obtain ⟨c, hc, hbad⟩ := generateAll_crash _ e'' hl
-        rw [mem_sortByLine] at hc
-        cases hS : Safe cs with
-        | false => rfl
-        | true =>
-          exfalso
-          have := List.all_eq_true.mp (by simpa [Safe] using hS) c hc
-          simp [hbad] at this
+      · exact generateAll_no_crash _ _ e'' hl
   | ok ts =>
     rw [hl] at h
     simp only at h
